@@ -1,5 +1,7 @@
 import Mimic.Cursor
 import MimicProofs.HandlersCode
+import MimicProofs.Frame
+import MimicProofs.Indep
 /-!
 # C11 — Server-side cursors deliver every row exactly once, in order
 -/
@@ -212,6 +214,36 @@ theorem execute_is_code (row : Mimic.Py.Bytes → Nat) (coldef : Nat → Nat →
     (hrun : handle_stmt_execute coldef parse app c data = .ok c' ∨ handle_stmt_execute coldef parse app c data = .error c') :
     absStmts row c' = (step ⟨absStmts row c, nxt⟩ (.execute x.stmt.stmt_id x.use_cursor (absResult row (app x.sql)))).1.stmts :=
   handle_stmt_execute_registry row coldef parse app c data x nxt hp hreg c' hrun
+
+open MimicProofs.Frame in
+/-- **Commands that name no statement disturb no cursor.**  A text query, a COM_PING, COM_DEBUG, COM_INIT_DB or COM_FIELD_LIST —
+    succeeding, failing in the parser, in the application or half-way through its rows — leaves the whole registry of prepared
+    statements, every cursor position and every long-data buffer exactly as it was: fetches before and after it continue the same
+    cursors ("cursors … are independent" extended to the commands in between). -/
+theorem code_unrelated_commands_leave_cursors (E : Mimic.Py.Env S) (coldef : Nat → Nat → Mimic.Py.Bytes) (app : S → Option (ResultSet S))
+    (ur : S → Bool) (fls : Mimic.Extracted.ParsersCode.ComFieldList S → S) (fcd : Nat → S → Mimic.Py.Bytes → Mimic.Py.Bytes)
+    (c : Connection S) (data : Mimic.Py.Bytes) :
+    KeepsStmts c (handle_query E coldef app c data) ∧ KeepsStmts c (handle_ping c data) ∧ KeepsStmts c (handle_debug c data) ∧
+    KeepsStmts c (handle_init_db E ur c data) ∧ KeepsStmts c (handle_field_list E app fls fcd c data) :=
+  ⟨query_keeps_stmts E coldef app c data, (ping_debug_keep_stmts c data).1, (ping_debug_keep_stmts c data).2,
+   init_db_keeps_stmts E ur c data, field_list_keeps_stmts E app fls fcd c data⟩
+
+open MimicProofs.Indep Mimic.Extracted.ParsersCode in
+/-- **Cursors of different statements are independent, on the code.**  A COM_STMT_FETCH, COM_STMT_RESET, COM_STMT_CLOSE,
+    COM_STMT_SEND_LONG_DATA or COM_STMT_EXECUTE naming statement `k` leaves every registry entry `j ≠ k` — cursor position,
+    long-data buffers, text — exactly as it was, in every outcome: returned or raised, cursor exhausted, the row source failing
+    half-way, unknown id.  COM_STMT_PREPARE touches only the entry of the id it announces. -/
+theorem code_statement_commands_touch_only_their_statement (E : Mimic.Py.Env S) (cp : S → Nat) (pc : Nat → Mimic.Py.Bytes)
+    (coldef : Nat → Nat → Mimic.Py.Bytes) (parse : Connection S → Mimic.Py.Bytes → Option (ComStmtExecute S))
+    (app : S → Option (ResultSet S)) (c : Connection S) (data : Mimic.Py.Bytes) :
+    (∀ f, parse_handle_stmt_fetch (S := S) data = some f → Others c f.stmt_id (handle_stmt_fetch c data)) ∧
+    (∀ f, parse_com_stmt_reset (S := S) data = some f → Others c f.stmt_id (handle_stmt_reset c data)) ∧
+    (∀ f, parse_com_stmt_close (S := S) data = some f → Others c f.stmt_id (handle_stmt_close c data)) ∧
+    (∀ f, parse_com_stmt_send_long_data (S := S) data = some f → Others c f.stmt_id (handle_stmt_send_long_data c data)) ∧
+    (∀ x, parse c data = some x → Others c x.stmt.stmt_id (handle_stmt_execute coldef parse app c data)) ∧
+    Others c c.prepared_stmt_seq.value (handle_stmt_prepare E cp pc c data) :=
+  ⟨fun f h => fetch_others c data f h, fun f h => reset_others c data f h, fun f h => close_others c data f h,
+   fun f h => send_long_data_others c data f h, fun x h => execute_others coldef parse app c data x h, prepare_others E cp pc c data⟩
 
 /-- the id space the model counts in is the code's `Connection._MAX_PREPARED_STMT_ID` (extracted) -/
 theorem stmt_id_space : maxPreparedStmtId = 4294967296 := by decide
